@@ -80,7 +80,8 @@
  * How the explorer is invoked (mc_main)
  * ------------------------------------------------------------------------------------------------
  *   drv explore [--pb P] [--db D] [--spurious 0|1] [--horizon N] [--jobs J] [--deadline SEC]
- *               [--maxexec N] [--cpu K] [--envpor 0|1] -- <harness words>
+ *               [--maxexec N] [--cpu K] [--envpor 0|1] [--stack KB] -- <harness words>
+ *       (--stack: stack size of model threads, default 256 KB; raise it for code with deep recursion)
  *       (--cpu K pins the executions of in-flight slot j to CPU K+j: one running thread at a time, so one CPU is best)
  *       iterates the preemption bound p = 0..P (deviation bound D fixed), every execution in a forked
  *       child, J children in flight.  explore(prefix): replay the prefix (enabled-set signature or
